@@ -23,7 +23,7 @@ PROP = "C16"
 SAMPLES = {
     "S1": [{"id": 1, "name": "a", "tag": {"k": "x"}}, {"id": 2, "name": "b", "tag": None},
            {"id": "3", "name": "c", "extra": [1]}, {"id": 4, "name": "a", "tag": {"k": "y", "z": 1.5}}],
-    "S2": [{"a1": {"x": 1, "y": 2, "z": 3}, "m": {"k1": {"q": 1}}, "dict_field": {"u": 1, "v": "s"}},
+    "S2": [{"a1": {"x": 1, "y": 2, "z": 3}, "m": {"k1": {"q": 1}}, "dict_field": {"u": 1, "v": "s"}, "mix": {"k1": {"q": 1}, "zz": {"q": 2}}},
            {"a1": {"x": 1, "y": 2, "z": 3, "w": 4}, "m": {"k2": {"q": 2}}, "b": {"x": 1, "y": 5}},
            {"b": {"x": 2, "y": 5, "z": 6, "w": 7}, "when": "2020-01-01", "dict_field": {"t": 2}}],
     "S3": [{"s": "1", "t": "true", "d": "2020-01-01T10:00:00", "l": "lit", "ключ": "ü", "u": "x\u2028y", "k\u0085ey": 1},
@@ -150,6 +150,12 @@ def _cases(tier):
                 continue
             yield {"s": sname, "fmt": "json", "comp": [[0], list(range(1, len(SAMPLES[sname])))], "form": "list", "arg": "m_each",
                    "opts": opts, "out": "stdout" if len(opts) == 1 or sname != "S3" else "file"}
+    # (D) a model name whose file contributes zero samples (top-level [] or an empty list under the lookup): alone, first / last of
+    # several names, first occurrence of a repeated name
+    for variant in ("only", "first_of_repeat", "last", "wrapped_first", "middle"):
+        for opts in ([], ["f_pydantic"], ["f_attrs", "s_nested"], ["f_dataclasses", "merge_exact"]):
+            for out in ("stdout", "file"):
+                yield {"s": "EMPTY", "fmt": "json", "comp": [[0]], "form": variant, "arg": "m_each", "opts": opts, "out": out}
     # (C) ini input (string-valued sections)
     for opts in ([], ["f_pydantic"], ["f_dataclasses", "converters"]):
         yield {"s": "INI", "fmt": "ini", "comp": [[0], [1]], "form": "object", "arg": "m_each", "opts": opts, "out": "stdout"}
@@ -180,6 +186,28 @@ def materialise(case, d):
         for p in paths:
             argv += ["-m", "Conf", os.path.basename(p)]
         return argv, [[("Conf", INI_SAMPLES)]]
+    if case["s"] == "EMPTY":
+        s1 = SAMPLES["S1"]
+
+        def put(name, content):
+            with open(os.path.join(d, name), "w", encoding="utf8") as f:
+                json.dump(content, f)
+        put("e.json", [])
+        put("ew.json", {"d": {"items": [], "n": 0}})
+        put("u.json", s1[:2])
+        put("o.json", s1[2:])
+        v = case["form"]
+        if v == "only":
+            return ["-m", "Empty", "e.json"], [[("Empty", [])]]
+        if v == "first_of_repeat":
+            return ["-m", "Order", "e.json", "-m", "User", "u.json", "-m", "Order", "o.json"], [[("Order", s1[2:]), ("User", s1[:2])]]
+        if v == "last":
+            return ["-m", "User", "u.json", "-m", "Order", "e.json"], [[("User", s1[:2]), ("Order", [])]]
+        if v == "wrapped_first":
+            return ["-m", "Empty", "d.items", "ew.json", "-m", "User", "u.json"], [[("Empty", []), ("User", s1[:2])]]
+        if v == "middle":
+            return ["-m", "User", "u.json", "-m", "Empty", "e.json", "-m", "Order", "o.json"], [[("User", s1[:2]), ("Empty", []), ("Order", s1[2:])]]
+        raise ValueError(v)
     samples = SAMPLES[case["s"]]
     ext = {"json": "json", "yaml": "yaml"}[case["fmt"]]
     if case["arg"].startswith("one_file"):
